@@ -4,7 +4,8 @@
    version listeners into what one run does. *)
 From Coq Require Import Permutation.
 From Clikit Require Import Base.Prelude Base.Res Model.Conv Model.Format Model.Parser Model.Resolver Model.Run
-     Model.Tokenizer Model.Gate Model.Switches Proofs.SwitchesLemmas.
+     Model.Tokenizer Model.Gate Model.Switches Proofs.ResolverLemmas Proofs.SwitchesLemmas
+     Proofs.HelpSamePageLemmas Proofs.HelpRunLemmas Proofs.SwitchesHelpLemmas.
 
 (* Placement independence: the settings depend only on which switches are among the option tokens. *)
 Theorem settings_perm : forall debug l l', Permutation l l' -> io_settings debug l = io_settings debug l'.
@@ -17,11 +18,58 @@ Theorem help_decision_perm : forall l l', Permutation l l' -> wants_help l = wan
 Proof. exact wants_help_perm. Qed.
 Print Assumptions help_decision_perm.
 
+(* The same at the level of the LINE: a token inserted at any position before the first double dash is an option token
+   at that position, and the settings, the help decision and the version decision of the run are those of the line with
+   the token put first; each switch so inserted has its effect whatever else is on the line. *)
+Theorem switch_position_free_on_the_line : forall debug a l1 s l2, is_ddash s = false -> no_ddash l1 = true ->
+  option_tokens (l1 ++ s :: l2) = l1 ++ s :: option_tokens l2 /\
+  sm_settings (run_summary debug a (l1 ++ s :: l2)) = sm_settings (run_summary debug a (s :: l1 ++ l2)) /\
+  wants_help (option_tokens (l1 ++ s :: l2)) = wants_help (option_tokens (s :: l1 ++ l2)) /\
+  wants_version (option_tokens (l1 ++ s :: l2)) = wants_version (option_tokens (s :: l1 ++ l2)).
+Proof.
+  intros debug a l1 s l2 Hs Hl. split; [apply option_tokens_insert; assumption|]. split; [apply line_insert_settings; assumption|].
+  apply line_insert_decisions; assumption.
+Qed.
+Print Assumptions switch_position_free_on_the_line.
+Theorem switch_acts_wherever_it_stands : forall debug a l1 s l2, is_ddash s = false -> no_ddash l1 = true ->
+  let st := sm_settings (run_summary debug a (l1 ++ s :: l2)) in
+  ((s = T_quiet \/ s = T_q) -> s_quiet st = true) /\
+  ((s = T_no_interaction \/ s = T_n) -> s_interactive st = false) /\
+  (s = T_no_ansi -> s_ansi st = AnsiOff) /\
+  (s = T_vvv -> s_verbosity st = DEBUG).
+Proof. exact line_switch_effect. Qed.
+Print Assumptions switch_acts_wherever_it_stands.
+
 (* The same tokens after the double dash have no effect on the settings. *)
 Theorem settings_tail : forall debug a l t t',
   sm_settings (run_summary debug a (l ++ [DASH; DASH] :: t)) = sm_settings (run_summary debug a (l ++ [DASH; DASH] :: t')).
 Proof. exact summary_settings_tail. Qed.
 Print Assumptions settings_tail.
+
+(* ... stronger: a line with a tail behind the double dash has the settings and the help / version decisions of the line
+   WITHOUT the tail; and when no help or version switch stands before the double dash, what the run does is what
+   resolution, the PARSED options and the command selected say - a help or version token in the tail does not act. *)
+Theorem tail_is_as_no_tail : forall debug a l t,
+  sm_settings (run_summary debug a (l ++ [DASH; DASH] :: t)) = sm_settings (run_summary debug a l) /\
+  wants_help (option_tokens (l ++ [DASH; DASH] :: t)) = wants_help (option_tokens l) /\
+  wants_version (option_tokens (l ++ [DASH; DASH] :: t)) = wants_version (option_tokens l).
+Proof. exact tail_inert. Qed.
+Print Assumptions tail_is_as_no_tail.
+Theorem switches_in_the_tail_do_not_act : forall debug a l t,
+  wants_help (option_tokens l) = false -> wants_version (option_tokens l) = false ->
+  sm_action (run_summary debug a (l ++ [DASH; DASH] :: t)) =
+    match resolve a (l ++ [DASH; DASH] :: t) with
+    | Err k => AError k
+    | Ok (path, f, x) =>
+      if args_is_option_set f x S_version then AVersion path
+      else if match path with [p] => str_eqb p S_help | _ => false end then
+        if args_is_argument_set f x (AName [99;111;109;109;97;110;100]%N)
+        then match help_target a (l ++ [DASH; DASH] :: t) with Ok p => AHelpCmd p | Err k => AHelpFail k end
+        else AHelpApp
+      else AHandler path
+    end.
+Proof. exact tail_switches_do_not_act. Qed.
+Print Assumptions switches_in_the_tail_do_not_act.
 
 (* The table. *)
 Theorem settings_table_quiet : forall debug ots, s_quiet (io_settings debug ots) = has_token T_quiet ots || has_token T_q ots.
@@ -32,6 +80,9 @@ Theorem settings_table_verbosity : forall ots,
     if has_token T_vvv ots then DEBUG else if has_token T_vv ots then VERY_VERBOSE else if has_token T_v ots then VERBOSE else NORMAL.
 Proof. exact verbosity_table. Qed.
 Print Assumptions settings_table_verbosity.
+Theorem settings_table_verbosity_debug : forall ots, s_verbosity (io_settings true ots) = DEBUG.
+Proof. intros. unfold io_settings. cbn [s_verbosity]. now rewrite orb_true_r. Qed.
+Print Assumptions settings_table_verbosity_debug.
 Theorem settings_table_ansi : forall debug ots stream_ansi,
   decorated (io_settings debug ots) stream_ansi =
     if has_token T_no_ansi ots then false else if has_token T_ansi ots then true else stream_ansi.
@@ -54,6 +105,57 @@ Theorem help_switch : forall debug a toks, wants_help (option_tokens toks) = tru
   match sm_action (run_summary debug a toks) with AHandler _ => False | _ => True end.
 Proof. exact help_switch_lemma. Qed.
 Print Assumptions help_switch.
+(* The help switch placed right after the command path prints THAT command's help.  Configuration: what
+   DefaultApplicationConfig sets up (default_help_config: the global option --help/-h, no global argument, the command
+   "help" with its multi-valued argument "command"); line: path ++ [--help] or path ++ [-h], the path made of plain
+   tokens, not empty, not starting with the word "help".
+   - the run shows a command page or reports why the help target could not be determined - never the handler, never
+     the error of resolving the line itself (the listener acts before resolution);
+   - the path walks to the command b with name path p (C03: walk_deepest / walk_reports_the_names_on_the_path), b has
+     no default sub-command: the page printed is p's, exactly when the lenient parse of the path with b's format
+     succeeds (it can fail: a typed argument that the path's tokens do not convert to - Props/C13.v
+     ex_help_value_error - then that error is reported, AHelpFail);
+   - with default sub-commands: the page of the first default sub-command that parses the path.
+   "Status 0" = the action is AHelpCmd (prints_page), not AHelpFail / AError.
+   PARTIAL: the switch directly behind the path, nothing else on the line.  For a switch among further arguments
+   and options only the decision (help_decision_perm, switch_position_free_on_the_line) and "never a handler"
+   (help_switch) are proved; the page printed then rests on the tie. *)
+Theorem help_switch_after_path_shows_a_page_or_why_not : forall cfg a debug path sw,
+  build_app cfg = Ok a -> default_help_config cfg = true -> forallb lead_ok path = true -> path <> [] ->
+  (match path with t :: _ => str_eqb t S_help = false | [] => True end) -> sw = T_help \/ sw = T_h ->
+  sm_action (run_summary debug a (path ++ [sw])) = help_page a (S_help :: path) /\
+  match sm_action (run_summary debug a (path ++ [sw])) with AHelpCmd _ | AHelpFail _ => True | _ => False end.
+Proof.
+  intros cfg a debug path sw Hb Hc Hp Hn Hh Hs. split; [apply (help_switch_run cfg); assumption|apply (help_switch_no_error cfg); assumption].
+Qed.
+Print Assumptions help_switch_after_path_shows_a_page_or_why_not.
+Theorem help_switch_after_path_prints_that_commands_help : forall cfg a debug path sw b p,
+  build_app cfg = Ok a -> default_help_config cfg = true -> forallb lead_ok path = true -> path <> [] ->
+  (match path with t :: _ => str_eqb t S_help = false | [] => True end) -> sw = T_help \/ sw = T_h ->
+  walk (named_of (ap_cmds a)) None path = Ok (Some (b, p)) -> defaults_of (b_subs b) = [] ->
+  sm_action (run_summary debug a (path ++ [sw])) =
+    match parse (b_fmt b) true path with Ok _ => AHelpCmd p | Err k => AHelpFail k end.
+Proof. intros cfg a debug path sw b p Hb Hc Hp Hn Hh Hs. apply (help_switch_page cfg); assumption. Qed.
+Print Assumptions help_switch_after_path_prints_that_commands_help.
+Theorem help_switch_after_path_status_zero : forall cfg a debug path sw b p x,
+  build_app cfg = Ok a -> default_help_config cfg = true -> forallb lead_ok path = true -> path <> [] ->
+  (match path with t :: _ => str_eqb t S_help = false | [] => True end) -> sw = T_help \/ sw = T_h ->
+  walk (named_of (ap_cmds a)) None path = Ok (Some (b, p)) -> defaults_of (b_subs b) = [] ->
+  parse (b_fmt b) true path = Ok x ->
+  sm_action (run_summary debug a (path ++ [sw])) = AHelpCmd p /\ prints_page (sm_action (run_summary debug a (path ++ [sw]))) = true.
+Proof. intros cfg a debug path sw b p x Hb Hc Hp Hn Hh Hs. apply (help_switch_page_ok cfg); assumption. Qed.
+Print Assumptions help_switch_after_path_status_zero.
+Theorem help_switch_after_path_default_sub_command : forall cfg a debug path sw b p ds1 d ds2 x y,
+  build_app cfg = Ok a -> default_help_config cfg = true -> forallb lead_ok path = true -> path <> [] ->
+  (match path with t :: _ => str_eqb t S_help = false | [] => True end) -> sw = T_help \/ sw = T_h ->
+  walk (named_of (ap_cmds a)) None path = Ok (Some (b, p)) ->
+  defaults_of (b_subs b) = ds1 ++ d :: ds2 ->
+  Forall (fun c => parse (b_fmt c) (b_lenient c) path = Err CannotParse) ds1 ->
+  parse (b_fmt d) (b_lenient d) path = Ok x -> parse (b_fmt d) true path = Ok y ->
+  sm_action (run_summary debug a (path ++ [sw])) = AHelpCmd (p ++ [b_name d]).
+Proof. intros cfg a debug path sw b p ds1 d ds2 x y Hb Hc Hp Hn Hh Hs. apply (help_switch_page_default cfg); assumption. Qed.
+Print Assumptions help_switch_after_path_default_sub_command.
+
 Theorem version_switch : forall debug a toks path f x,
   wants_help (option_tokens toks) = false -> resolve a toks = Ok (path, f, x) ->
   args_is_option_set f x S_version = true -> sm_action (run_summary debug a toks) = AVersion path.
@@ -118,3 +220,45 @@ Theorem option_tokens_match_source : forall toks t,
   GenSwitches.has_option_token str_eqb toks t = has_token t (option_tokens toks).
 Proof. intros toks t. split; [apply GenSwitchEquivLemmas.gen_option_tokens|apply GenSwitchEquivLemmas.gen_has_option_token]. Qed.
 Print Assumptions option_tokens_match_source.
+(* ---- non-vacuity: a DefaultApplicationConfig-like configuration (global --help/-h and --version/-V, the default command
+   "help", "server" [srv] with the sub-commands "add" <file> and "del") satisfies the hypotheses of the help theorems
+   with path = server add, and the runs do what the theorems say ---- *)
+Definition COMMAND : str := [99;111;109;109;97;110;100]%N.
+Definition SERVER : str := [115;101;114;118;101;114]%N. Definition SRV : str := [115;114;118]%N.
+Definition ADD : str := [97;100;100]%N. Definition DEL : str := [100;101;108]%N. Definition FILE : str := [102;105;108;101]%N.
+Definition o_help : opt := {| o_long := S_help; o_short := Some [104%N]; o_flags := 4 + 2 + 128; o_default := VNone |}.
+Definition o_version : opt := {| o_long := S_version; o_short := Some [86%N]; o_flags := 4 + 2 + 128; o_default := VNone |}.
+Definition a_command : arg := {| a_name := COMMAND; a_flags := 2 + 4 + 16; a_default := VList [] |}.
+Definition a_file : arg := {| a_name := FILE; a_flags := 2 + 16; a_default := VNone |}.
+Definition ex_cfg : appcfg :=
+  {| ac_opts := [o_help; o_version]; ac_args := [];
+     ac_cmds := [Cmd S_help [] true false true false [] [a_command] [];
+                 Cmd SERVER [SRV] false false true false [] []
+                   [Cmd ADD [] false false true false [] [a_file] []; Cmd DEL [] false false true false [] [] []]] |}.
+Example help_hypotheses_hold :
+  match build_app ex_cfg with
+  | Ok a =>
+    default_help_config ex_cfg = true /\ forallb lead_ok [SRV; ADD] = true /\ str_eqb SRV S_help = false /\
+    match walk (named_of (ap_cmds a)) None [SRV; ADD] with
+    | Ok (Some (b, p)) => p = [SERVER; ADD] /\ map b_name (defaults_of (b_subs b)) = [] /\
+                          match parse (b_fmt b) true [SRV; ADD] with Ok _ => True | Err _ => False end
+    | _ => False end /\
+    sm_action (run_summary false a [SRV; ADD; T_help]) = AHelpCmd [SERVER; ADD] /\
+    sm_action (run_summary false a [SRV; ADD; T_h]) = AHelpCmd [SERVER; ADD] /\
+    sm_action (run_summary false a [SRV; ADD; T_version]) = AVersion [SERVER; ADD] /\
+    sm_action (run_summary false a [SRV; ADD]) = AHandler [SERVER; ADD] /\
+    (* behind the double dash the same tokens do not act *)
+    sm_action (run_summary false a [SRV; ADD; [DASH; DASH]; T_help]) = AHandler [SERVER; ADD] /\
+    sm_settings (run_summary false a [SRV; ADD; [DASH; DASH]; T_quiet; T_vvv]) = sm_settings (run_summary false a [SRV; ADD]) /\
+    s_quiet (sm_settings (run_summary false a [SRV; T_quiet; ADD])) = true
+  | Err _ => False end.
+Proof. vm_compute. repeat split. Qed.
+Example help_theorem_applied : forall a debug, build_app ex_cfg = Ok a ->
+  match sm_action (run_summary debug a ([SRV; ADD] ++ [T_help])) with AHelpCmd _ | AHelpFail _ => True | _ => False end.
+Proof.
+  intros a debug Ha.
+  apply (help_switch_after_path_shows_a_page_or_why_not ex_cfg a debug [SRV; ADD] T_help Ha);
+    [vm_compute; reflexivity|vm_compute; reflexivity|discriminate|vm_compute; reflexivity|now left].
+Qed.
+Example insertion_hypotheses_hold : is_ddash T_quiet = false /\ no_ddash [SRV; ADD] = true.
+Proof. vm_compute. split; reflexivity. Qed.
